@@ -55,6 +55,29 @@ theorem getApp_setApp_ne (apps : List (Nat × AppMem)) (a b : Nat) (m : AppMem) 
         simp [setApp, getApp, h', h]
       · simp [setApp, getApp, h', h'', ih]
 
+theorem getApp_filter_same (apps : List (Nat × AppMem)) (a : Nat) : getApp (delApp apps a) a = none := by
+  induction apps with
+  | nil => simp [delApp, getApp]
+  | cons p rest ih =>
+    obtain ⟨a', m'⟩ := p
+    by_cases h : a' = a
+    · simp [delApp, h, ih]
+    · simp [delApp, h, getApp, ih]
+
+theorem getApp_filter_ne (apps : List (Nat × AppMem)) (a b : Nat) (h : b ≠ a) :
+    getApp (delApp apps a) b = getApp apps b := by
+  induction apps with
+  | nil => simp [delApp, getApp]
+  | cons p rest ih =>
+    obtain ⟨a', m'⟩ := p
+    by_cases h' : a' = a
+    · subst h'
+      simp [delApp, getApp, ih, Ne.symm h]
+    · by_cases h'' : a' = b
+      · subst h''
+        simp [delApp, h, getApp]
+      · simp [delApp, h', getApp, h'', ih]
+
 theorem getArr_setArr_same (arrs : List (Int × Arr)) (a : Int) (v : Arr) :
     getArr (setArr arrs a v) a = some v := by
   induction arrs with
@@ -354,6 +377,13 @@ theorem step_shape {okf : Nat} {s s' : State} {a : Action} (h : step okf s a = s
     simp only [step] at h
     obtain ⟨app, m, _, _, hf⟩ := withApp_some h
     injection hf with hf; subst hf; exact .mem (by simp [SameEpr])
+  | stopApp app =>
+    simp only [step] at h
+    split at h
+    · cases h
+    · split at h
+      · injection h with h; subst h; exact .mem (by simp [SameEpr])
+      · cases h
 
 /-- reachable states -/
 inductive Reach (okf : Nat) (node : Int) : State → Prop
